@@ -4,11 +4,9 @@
    them (as a set it is what Python's scoping rules give for the generated module:
    hypothesis FFV, validated against CPython on every run).  If the conversion returns a
    function then
-   - every free variable of the factory is a free variable of the result and its cell is
+   - every free variable of the ORIGINAL is a free variable of the result and its cell is
      the very cell the original function has for that name (so a rebinding through
-     nonlocal on either side is seen by the other);
-   - with the length check in place the factory's free variables are exactly the original
-     ones, i.e. no original cell is dropped;
+     nonlocal on either side is seen by the other); no original cell is dropped;
    - no name of the result is bound to an original cell of a different name;
    - the only other cells are new ones for the factory's own parameters (ag__) / the
      function's own name.
@@ -23,19 +21,29 @@ Theorem cells_shared_partial : forall cfg o e ffv c, cfg_ok cfg = true -> e_leve
   (forall s, wrap_scopes cfg e (o_freevars o) = Some s -> forall n, In n ffv <-> In n (model_ffv s)) ->
   convert cfg o e ffv = Ok c ->
   let orig_cells := combine (o_freevars o) (o_closure o) in
-  (forall n, In n ffv -> exists k, In (n, COrig k) (c_closure c) /\ In (n, k) orig_cells)
-  /\ (len_check cfg <> None -> Permutation ffv (o_freevars o))
+  (forall n, In n (o_freevars o) -> exists k, In (n, COrig k) (c_closure c) /\ In (n, k) orig_cells)
   /\ (forall n k, In (n, COrig k) (c_closure c) ->
         In (n, k) orig_cells /\ forall k', In (n, k') orig_cells -> k' = k)
   /\ (forall n n', In (n, CFresh n') (c_closure c) -> n' = n /\ In n (e_extra e ++ [e_entity e]))
   /\ NoDup (map fst (c_closure c)).
 Proof.
   intros cfg o e ffv c OK LV ND NDF LEN FFV C.
-  destruct (cells_lemma cfg o e ffv c OK LV ND NDF LEN FFV C) as [A [B [D [E F]]]].
-  cbv zeta. split; [exact A|]. split; [exact B|]. split; [|split; [exact E | exact F]].
+  destruct (cells_lemma cfg o e ffv c OK LV ND NDF LEN FFV C) as [A [_ [D [E F]]]].
+  cbv zeta. split; [exact A|]. split; [|split; [exact E | exact F]].
   intros n k Hk. split; [apply D; exact Hk|].
   intros k' Hk'. apply (cell_of_name_unique _ _ n k' k ND LEN Hk'). apply D; exact Hk.
 Qed.
+
+(* a free variable shadowed by a factory parameter is refused, not mis-bound *)
+Example shadowed_name_raises :
+  let o := {| o_sig := mkSig (mkParams [] [] None [] None) [] [];
+              o_decos := []; o_self := None;
+              o_freevars := ["ag__"; "zeta"]%string; o_closure := [10; 20]; o_globals := 7;
+              o_defaults := None; o_kwdefaults := None |} in
+  let e := mkEnv ["ag__"; "zeta"]%string ["ag__"%string] "ag__f"%string
+                 "inner_factory"%string "outer_factory"%string 2 in
+  convert config_gen o e ["zeta"%string] = Err ValueError.
+Proof. vm_compute; reflexivity. Qed.
 
 (* non-vacuity on the current configuration: f closes over a, b, c (cells 10, 20, 30), the
    transformed code still mentions them (and ag__, len); CPython lists the factory's free
